@@ -18,12 +18,18 @@ directly calling GIT (for development).
         pass
 
     try:
+        import os
         import subprocess
+        # ask the repository that contains this file, not the one (if
+        # any) of the current working directory
         version = subprocess.check_output(
-            ["git", "describe", "--tags", "--always"]).strip().decode('utf-8')
+            ["git", "describe", "--tags", "--always"],
+            cwd=os.path.dirname(os.path.abspath(__file__)),
+            stderr=subprocess.DEVNULL).strip().decode('utf-8')
         return version
-    except subprocess.CalledProcessError:
+    except (subprocess.CalledProcessError, OSError):
         pass
+    return 'unknown version'
 
 
 # Project info
